@@ -83,14 +83,14 @@ class Stage:
             f = f + ["-D" + GUARD]
         return f
 
-    def compile(self, src, out=None, sanitize=True, extra=(), lang_c=False):
+    def compile(self, src, out=None, sanitize=True, extra=(), lang_c=False, pre=()):
         """Compile one source file (absolute or stage-relative) into work/."""
         if not os.path.isabs(src):
             src = os.path.join(self.repo, src)
         if out is None:
             out = os.path.join(self.work, re.sub(r"[^A-Za-z0-9]+", "_", os.path.relpath(src, "/")) + ".o")
         cc = ["gcc"] if lang_c else ["g++", "-std=c++17"]
-        cmd = cc + self.cppflags() + ["-pipe", "-D_REENTRANT", "-w"] + (SAN if sanitize else ["-O1", "-g"]) + list(extra) + ["-c", "-o", out, src]
+        cmd = cc + list(pre) + self.cppflags() + ["-pipe", "-D_REENTRANT", "-w"] + (SAN if sanitize else ["-O1", "-g"]) + list(extra) + ["-c", "-o", out, src]
         r = subprocess.run(cmd, capture_output=True, text=True, cwd=os.path.join(self.repo, "src"))
         if r.returncode != 0:
             raise BuildError("compile failed: %s\n%s" % (" ".join(shlex.quote(c) for c in cmd), r.stderr[-4000:]))
